@@ -115,3 +115,21 @@ def parse_json_event(path, naming):
     except (Exception, CallTimeout) as exc:
         out = 'error:' + errname(exc)
     return {'a': 'ParseJson', 'args': {'fmt': 'json'}, 'out': out, 'post': post, 'anom': anom}
+
+
+def export_event(lang, model, naming):
+    """Write with an export writer and parse the text with the strict parser of the target syntax."""
+    import parse_export
+    ev, path, text = write_event(lang, model, naming, keep_text=True)
+    doc = parse_export.EMPTY_DOC[lang]
+    parsed, err = False, ''
+    if ev['out'] == 'value':
+        try:
+            doc = parse_export.PARSERS[lang](text if isinstance(text, str) else text.decode('utf-8'), naming)
+            parsed = True
+        except parse_export.ParseError as exc:
+            err = str(exc)[:300]
+    if os.path.exists(path):
+        os.remove(path)
+    return {'a': 'Export', 'args': {'lang': lang}, 'out': ev['out'], 'post': ev['post'], 'anom': ev['anom'],
+            'ret': {'parsed': parsed, 'err': err, 'doc': doc, 'digest': ev['ret']['digest']}}
